@@ -37,6 +37,7 @@ type caseStats struct {
 	touchedVal, touchedAcc                 bool
 	finaliseBeforeNested                   bool
 	nestedReverts                          int
+	guardFail, modelSteps                  int // model steps outside / inside+outside the theorems' guard (Lean `opOKB`)
 }
 
 var (
@@ -215,6 +216,12 @@ func runCase(ops []string, drv *vh.Driver) (*failure, caseStats, error) {
 					return &failure{"correspondence", fmt.Sprintf("trie contents after op %d %q: %s", i, line, firstDiffSection(gt, lt)), i, "trie"}, cs, nil
 				}
 			}
+		}
+	}
+	if drv != nil {
+		if gs := strings.Fields(ask("gstat")); len(gs) == 2 {
+			cs.guardFail, _ = strconv.Atoi(gs[0])
+			cs.modelSteps, _ = strconv.Atoi(gs[1])
 		}
 	}
 	return nil, cs, nil
@@ -580,7 +587,7 @@ func run(c *vh.Ctx) error {
 	if v, err := strconv.Atoi(os.Getenv("VERIF_C09_N")); err == nil && v > 0 {
 		n = v // development aid only; ./check never sets it
 	}
-	totalOps, totalRev, nested, crashes := 0, 0, 0, 0
+	totalOps, totalRev, nested, crashes, guardFail, modelSteps := 0, 0, 0, 0, 0, 0
 	for i := 0; i < n; i++ {
 		r := c.R.Fork()
 		flavour := []string{"plain", "deleg", "ripemd", "malformed"}[r.Weighted([]int{70, 12, 5, 13})]
@@ -603,6 +610,11 @@ func run(c *vh.Ctx) error {
 			res.Dist("nested-snapshots-after-finalise")
 		}
 		totalOps += cs.ops
+		guardFail += cs.guardFail
+		modelSteps += cs.modelSteps
+		if cs.guardFail > 0 {
+			res.Dist("cases-with-a-step-outside-the-theorem-guard-" + flavour)
+		}
 		totalRev += cs.reverts
 		nested += cs.nestedReverts
 		if drv != nil {
@@ -619,6 +631,8 @@ func run(c *vh.Ctx) error {
 		}
 	}
 	res.DistN("ops-executed", totalOps)
+	res.DistN("model-steps-of-completed-cases", modelSteps)
+	res.DistN("model-steps-outside-the-theorem-guard", guardFail)
 	res.DistN("reverts-checked-by-oracle", totalRev)
 	res.DistN("reverts-at-depth>=2", nested)
 	// ---- probes of the open known findings
